@@ -149,7 +149,83 @@ def history_task(task, wdir, res):
         lt.stop()
 
 
+def burst_task(task, wdir, res):
+    """A long burst of STOREs to one context while the wall clock is behind the shard's newest id (NTP step back): the shard
+    tag of the ids (and so the context's shard) must not change, scoped reads return all of them, the unscoped read the union."""
+    import random
+    rng = random.Random(task["seed"])
+    shards = task["shards"]
+    cfg = dict(shard_count=shards, event_per_zone=64, fill_factor=100, segments_per_merge=2)
+    res.count("tasks"); res.count("burst_histories")
+    lt = Lifetimes(wdir, **cfg)
+    witness = {"seed": task["seed"], "config": cfg, "mode": "burst", "n": task["n"]}
+    node = lt.start()
+    try:
+        must_ok(node.cmd('DEFINE ev FIELDS { k: "int" }'), "define")
+        base = 1700000000000
+        node.meta(f"clock auto {base} 1")
+        ctxs = [f"b{j}" for j in range(shards * 3)]
+        k = 0
+        tag_of = {}
+        for c in ctxs:                     # one event per context at the normal clock: where does each context live?
+            k += 1
+            must_ok(node.cmd(f'STORE ev FOR {c} PAYLOAD {{"k":{k}}}'), "store")
+        rows = node.cmd("QUERY ev").dicts()
+        for r in rows:
+            tag_of.setdefault(r["context_id"], set()).add(shard_of(r["event_id"]))
+        # half of the bursts go to shard 0 (whose tag bits are all zero: anything that spills into them shows), half to a random shard
+        on0 = [c for c in ctxs if tag_of.get(c) == {0}]
+        victim = rng.choice(on0) if (on0 and task.get("n", 0) % 200 == 100) else rng.choice(ctxs)
+        back = rng.choice([60_000, 120_000])
+        now = int(node.meta("clock peek").get("now") or base)
+        node.meta(f"clock auto {now - back} 1")     # the clock steps back; every read advances it by 1 ms
+        stored = {c: [i + 1] for i, c in enumerate(ctxs)}
+        for _ in range(task["n"]):
+            k += 1
+            must_ok(node.cmd(f'STORE ev FOR {victim} PAYLOAD {{"k":{k}}}'), "store")
+            stored[victim].append(k)
+        behind = int(node.meta("clock peek").get("now") or 0) < now
+        res.add_set("burst_under_clock", f"{shards}:{'still_behind' if behind else 'caught_up'}:{task['n']}")
+        for c in rng.sample(ctxs, min(4, len(ctxs))):      # neighbours written after the burst
+            k += 1
+            must_ok(node.cmd(f'STORE ev FOR {c} PAYLOAD {{"k":{k}}}'), "store")
+            stored[c].append(k)
+        node.sync()
+        rep = node.cmd("QUERY ev", timeout=120)
+        res.evaluations += 1
+        rows = rep.dicts() if rep.ok and rep.rows is not None else []
+        all_k = sorted(x for v in stored.values() for x in v)
+        got_k = sorted(r["k"] for r in rows)
+        sig = {"shards": shards, "mode": "burst"}
+        if got_k != all_k:
+            miss = sorted(set(all_k) - set(got_k))
+            res.violation("unscoped_not_union", dict(sig, missing=bool(miss), extra=bool(set(got_k) - set(all_k)), dup=len(got_k) != len(set(got_k)), after="burst"),
+                          f"burst of {task['n']} to {victim} under a clock {back} ms behind: {len(miss)} events missing (first k={miss[:6]}), {len(got_k)} rows", witness)
+        tags = {}
+        for r in rows:
+            tags.setdefault(r["context_id"], set()).add(shard_of(r["event_id"]))
+        for c, t in tags.items():
+            res.evaluations += 1
+            if len(t) > 1 or (c in tag_of and t != tag_of[c]):
+                res.violation("context_on_two_shards", dict(sig, shape="random", when="burst_under_clock_step"),
+                              f"ctx={c} tags={sorted(t)} (before the burst {sorted(tag_of.get(c, []))})", witness)
+            if any(x >= shards for x in t):
+                res.violation("shard_tag_out_of_range", sig, f"ctx={c} tags={sorted(t)}", witness)
+        rp = node.cmd(f"QUERY ev FOR {victim}", timeout=120)
+        res.evaluations += 1
+        gk = sorted(r["k"] for r in rp.dicts()) if rp.ok and rp.rows is not None else None
+        if gk != sorted(stored[victim]):
+            res.violation("scoped_read_wrong", dict(sig, shape="random", form="QUERY"), f"QUERY ev FOR {victim}: {None if gk is None else len(gk)} rows, expected {len(stored[victim])}", witness)
+        res.nontrivial(("burst", shards, task["n"] > 4096, behind))
+        res.sample({"mode": "burst", "shards": shards, "n": task["n"], "clock_still_behind_after_burst": behind})
+    finally:
+        lt.stop()
+
+
 def run(run):
+    nb = 2 if run.tier == "quick" else 16
+    run.parallel(burst_task, [{"name": f"b{i}", "seed": run.rng("burst", i).getrandbits(48), "shards": [2, 3, 4, 8][i % 4], "n": [4300, 8300][i % 2]}
+                              for i in range(nb)])
     counts = [1, 2, 3, 5, 8, 16]
     n = 18 if run.tier == "quick" else 300
     tasks = [{"name": f"h{i}", "seed": run.rng("hist", i).getrandbits(48), "shards": counts[i % len(counts)]} for i in range(n)]
@@ -161,4 +237,7 @@ def run(run):
 def replay(run, path):
     with open(path) as f:
         w = json.load(f)
+    if w["witness"].get("mode") == "burst":
+        run.parallel(burst_task, [{"name": "replay", "seed": w["witness"]["seed"], "shards": w["witness"]["config"]["shard_count"], "n": w["witness"]["n"]}], nproc=1)
+        return
     run.parallel(history_task, [{"name": "replay", "seed": w["witness"]["seed"], "shards": w["witness"]["config"]["shard_count"]}], nproc=1)
